@@ -138,27 +138,48 @@ def explore_choices(run, max_leaves=None, max_deviations=None):
 
 
 class RandomProxy:
-    """Stands in for the ``random`` module functions the library calls."""
+    """Stands in for the ``random`` module functions (and for private
+    ``random.Random`` instances) the library calls.  Answers come from the
+    chooser that is active *at call time*, so an object that captured the proxy
+    while one exploration was running keeps working under the next one; with
+    no exploration active the real generator answers."""
 
-    def __init__(self, chooser: Chooser):
-        self.ch = chooser
+    def __init__(self, chooser=None):
+        self._fixed = chooser
+
+    @property
+    def ch(self):
+        if self._fixed is not None:
+            return self._fixed
+        return _ACTIVE[-1] if _ACTIVE else None
+
+    def _real(self):
+        return _REAL
 
     def randint(self, a, b):
+        if self.ch is None:
+            return _REAL.randint(a, b)
         return a + self.ch.choose(b - a + 1, f"randint({a},{b})")
 
     def randrange(self, start, stop=None, step=1):
+        if self.ch is None:
+            return _REAL.randrange(start, stop, step) if stop is not None else _REAL.randrange(start)
         if stop is None:
             start, stop = 0, start
         vals = range(start, stop, step)
         return vals[self.ch.choose(len(vals), f"randrange({start},{stop},{step})")]
 
     def choice(self, seq):
+        if self.ch is None:
+            return _REAL.choice(seq)
         seq = list(seq)
         if not seq:
             raise IndexError("Cannot choose from an empty sequence")
         return seq[self.ch.choose(len(seq), f"choice(len={len(seq)})")]
 
     def sample(self, population, k):
+        if self.ch is None:
+            return _REAL.sample(population, k)
         pool = list(population)
         out = []
         for _ in range(k):
@@ -166,6 +187,8 @@ class RandomProxy:
         return out
 
     def shuffle(self, x):
+        if self.ch is None:
+            return _REAL.shuffle(x)
         pool = list(x)
         out = []
         while pool:
@@ -173,36 +196,52 @@ class RandomProxy:
         x[:] = out
 
     def random(self):
+        if self.ch is None:
+            return _REAL.random()
         return (0.0, 0.5, 0.999)[self.ch.choose(3, "random()")]
 
     def uniform(self, a, b):
         return a + (b - a) * self.random()
 
     def seed(self, *a, **k):  # seeding is irrelevant once answers are owned
+        if self.ch is None:
+            return _REAL.seed(*a, **k)
         return None
 
-
     def getrandbits(self, k):
+        if self.ch is None:
+            return _REAL.getrandbits(k)
         return self.ch.choose(2 ** min(k, 3), f"getrandbits({k})")
 
+    def getstate(self):
+        return _REAL.getstate()
 
+    def setstate(self, state):
+        return _REAL.setstate(state)
+
+
+_ACTIVE = []  # stack of choosers of the running explorations
+_REAL = _random_module.Random()
+_SHARED_PROXY = RandomProxy()
 _PATCHED = ("randint", "randrange", "choice", "sample", "shuffle", "random", "uniform", "seed", "getrandbits")
 
 
 @contextlib.contextmanager
 def owned_random(chooser: Chooser):
-    """Every ``random.<f>()`` call anywhere becomes a choice point."""
-    proxy = RandomProxy(chooser)
+    """Every ``random.<f>()`` call anywhere - and every draw from a private
+    ``random.Random(...)`` created while a source is owned - becomes a choice
+    point of ``chooser``."""
+    proxy = _SHARED_PROXY
     saved = {n: getattr(_random_module, n) for n in _PATCHED}
     saved_cls = _random_module.Random
+    _ACTIVE.append(chooser)
     try:
         for n in _PATCHED:
             setattr(_random_module, n, getattr(proxy, n))
-        # a private generator object (random.Random(seed)) created while the
-        # source is owned draws from the same chooser
         _random_module.Random = lambda *a, **k: proxy
         yield proxy
     finally:
+        _ACTIVE.pop()
         for n, f in saved.items():
             setattr(_random_module, n, f)
         _random_module.Random = saved_cls
